@@ -39,6 +39,9 @@ type Document struct {
 	// stylesGenerated 表示 parts 中的 word/styles.xml 是由本文档的样式管理器生成的
 	// （而不是从已有文档/模板中读取的），因此每次保存时都可以安全地重新生成
 	stylesGenerated bool
+	// stylesAtOpen 只在通过 Open/OpenFromMemory 得到的文档上设置：打开时样式管理器和正文样式引用的状态，
+	// 保存时据此把打开之后新增/修改的样式拼接进原有的 styles.xml（见 extendOpenedStyles）
+	stylesAtOpen *openedStyles
 }
 
 // Body 表示文档主体
@@ -650,6 +653,9 @@ func openFromZipReader(zipReader *zip.Reader, filename string) (*Document, error
 
 	// 根据已有的图片关系更新nextImageID计数器
 	doc.updateNextImageID()
+
+	// 记录打开时的样式状态，保存时只把之后的改动写进原有的 styles.xml
+	doc.snapshotOpenedStyles()
 
 	return doc, nil
 
@@ -3221,12 +3227,18 @@ func (d *Document) serializeStyles() error {
 	// 只有当 styles.xml 不是由本文档自己生成时才保留原样；自己生成的部件在每次保存时
 	// 重新生成，否则第一次保存之后通过样式管理器新建或修改的样式永远不会写入文件。
 	if existing, ok := d.parts["word/styles.xml"]; ok && len(existing) > 0 && !d.stylesGenerated {
+		if d.stylesAtOpen != nil {
+			// 打开的文档：原文保留，只拼接打开之后新增/修改的样式和正文新引用的样式；
+			// 没有这类改动时部件逐字节不变
+			d.parts["word/styles.xml"] = d.extendOpenedStyles(existing)
+			return nil
+		}
 		Debugf("检测到已有 styles.xml，跳过样式重建以保留模板默认样式")
 		return nil
 	}
 
 	// 表格引用的样式（w:tblStyle）必须在样式表中有定义
-	d.defineReferencedTableStyles()
+	d.defineReferencedTableStyles(nil)
 
 	// 创建样式结构，包含完整的命名空间
 	type stylesXML struct {
@@ -3280,12 +3292,14 @@ func (d *Document) serializeStyles() error {
 // defineReferencedTableStyles 为正文表格（含嵌套表格）通过 ApplyTableStyle / CreateCustomTableStyle
 // 引用、但样式管理器中没有的样式ID注册一个表格类型的样式。Table 不持有文档引用，调用当时无法注册，
 // 所以在生成 styles.xml 之前补上，否则 w:tblStyle 指向一个哪里都没有定义的ID。
-func (d *Document) defineReferencedTableStyles() {
+// skip 中的ID不处理（打开的文档：原 styles.xml 已有定义、或打开时就已被引用的ID）；返回新注册的样式ID。
+func (d *Document) defineReferencedTableStyles(skip map[string]bool) []string {
+	var created []string
 	var visit func(t *Table)
 	visit = func(t *Table) {
 		if t.Properties != nil && t.Properties.TableStyle != nil {
 			ref := t.Properties.TableStyle
-			if ref.Val != "" && !d.styleManager.StyleExists(ref.Val) {
+			if ref.Val != "" && !skip[ref.Val] && !d.styleManager.StyleExists(ref.Val) {
 				name := ref.Name
 				if name == "" {
 					name = ref.Val
@@ -3299,6 +3313,7 @@ func (d *Document) defineReferencedTableStyles() {
 					basedOn = ""
 				}
 				d.styleManager.CreateCustomStyle(ref.Val, name, style.StyleTypeTable, basedOn)
+				created = append(created, ref.Val)
 			}
 		}
 		for r := range t.Rows {
@@ -3310,13 +3325,14 @@ func (d *Document) defineReferencedTableStyles() {
 		}
 	}
 	if d.Body == nil {
-		return
+		return nil
 	}
 	for _, element := range d.Body.Elements {
 		if t, ok := element.(*Table); ok {
 			visit(t)
 		}
 	}
+	return created
 }
 
 // parseContentTypes 解析内容类型文件
